@@ -58,6 +58,13 @@ type Scheduler struct {
 	pause     time.Duration
 	lastError error
 	handlers  map[dag.HandlerType]*Node
+	// active is the number of step goroutines that have not ended yet: what
+	// maxActiveRuns limits and what a stop request waits for. (The node status
+	// cannot be used for this: a repeating step that goes on after a failed
+	// iteration is executing while its node is labelled failed, and a step
+	// that was sent the stop signal is labelled canceled while its process
+	// may still be alive.)
+	active atomic.Int32
 	// outcome is the status of the run decided when its last step finished;
 	// the handlers are selected from it.
 	outcome    Status
@@ -110,12 +117,6 @@ func (sc *Scheduler) Schedule(ctx context.Context, g *ExecutionGraph, done chan 
 
 	var wg = sync.WaitGroup{}
 
-	// active is the number of step goroutines that have not ended yet: what
-	// maxActiveRuns limits. (The node status cannot be used for this: a
-	// repeating step that goes on after a failed iteration, for one, is
-	// executing while its node is labelled failed.)
-	var active atomic.Int32
-
 	var cancel context.CancelFunc
 	if sc.timeout > 0 {
 		ctx, cancel = context.WithTimeout(ctx, sc.timeout)
@@ -137,7 +138,7 @@ func (sc *Scheduler) Schedule(ctx context.Context, g *ExecutionGraph, done chan 
 				break NodesIteration
 			}
 			verifPoint("loop.launch", node)
-			if sc.maxActiveRuns > 0 && int(active.Load()) >= sc.maxActiveRuns {
+			if sc.maxActiveRuns > 0 && int(sc.active.Load()) >= sc.maxActiveRuns {
 				continue NodesIteration
 			}
 			// Check preconditions
@@ -151,7 +152,7 @@ func (sc *Scheduler) Schedule(ctx context.Context, g *ExecutionGraph, done chan 
 				}
 			}
 			wg.Add(1)
-			active.Add(1)
+			sc.active.Add(1)
 
 			sc.logger.Info("Step execution started", "step", node.data.Step.Name)
 			node.setStatus(NodeStatusRunning)
@@ -159,7 +160,7 @@ func (sc *Scheduler) Schedule(ctx context.Context, g *ExecutionGraph, done chan 
 				defer verifPoint("worker.exit", node)
 				defer func() {
 					node.finish()
-					active.Add(-1)
+					sc.active.Add(-1)
 					wg.Done()
 				}()
 
@@ -375,7 +376,9 @@ func (sc *Scheduler) Signal(
 		defer func() {
 			done <- true
 		}()
-		for g.IsRunning() {
+		// wait for the step goroutines, not for the node labels: a signalled
+		// step is labelled canceled at once, its process may live on
+		for sc.active.Load() > 0 {
 			time.Sleep(sc.pause)
 		}
 	}
